@@ -101,6 +101,10 @@ pub fn plan(prop: &str, tier: &str) -> (PropMeta, Vec<Job>) {
                     });
                 }
             }
+            // a cache that holds about two messages (eviction at every append, partial reload at restart)
+            for nowait in [false, true] {
+                cfgs.push(NodeCfg { threshold: 2, seg_size: SEG_SMALL, cache: true, cache_size: TINY_CACHE, nowait, ..Default::default() });
+            }
             (cfgs, if quick { 4 } else { 5 }, 1, c01_alphabet)
         }
         "C02" => {
@@ -141,6 +145,9 @@ pub fn plan(prop: &str, tier: &str) -> (PropMeta, Vec<Job>) {
                         ..Default::default()
                     });
                 }
+            }
+            for nowait in [false, true] {
+                cfgs.push(NodeCfg { threshold: 2, seg_size: SEG_SMALL, cache: true, cache_size: TINY_CACHE, nowait, ..Default::default() });
             }
             (cfgs, if quick { 4 } else { 6 }, 1, c03_alphabet)
         }
